@@ -1,5 +1,6 @@
 SPECIFICATION TraceSpec
 CONSTANTS
+  MetaNs = {}
   Budgets = {}
   Pols = {}
   Objs = {}
@@ -8,6 +9,6 @@ CONSTANTS
   Boxes = {}
   KConv = 1000000
   KConvX = 1000
-INVARIANTS TypeOK Protocol Descent ReportConsistent Budget FeasibleAlways Bracketed Converged
+INVARIANTS TypeOK Protocol Descent ReportConsistent Budget FeasibleAlways Bracketed Converged MetaSchedule
 POSTCONDITION TraceAccepted
 CHECK_DEADLOCK FALSE
